@@ -32,7 +32,7 @@ def demo_cmd(demo_path, wt):
             name = m.group(1)
         m = re.search(r"(cargo test .*)$", l)
         if m and not cmd:
-            cmd = m.group(1).strip()
+            cmd = re.split(r"\s{2,}|\s\(", m.group(1).strip())[0].strip()
     if not name:
         raise SystemExit("cannot find the demo's test name")
     if not cmd:
